@@ -181,8 +181,8 @@ func (m *cmask) apply(text string) *applyRes {
 	})
 	// clusters of overlapping ranges
 	type cluster struct {
-		s, e, k int
-		sumStar int
+		s, e, k  int
+		sumStar  int
 		anyEmpty bool
 	}
 	var cl []cluster
@@ -406,9 +406,9 @@ type cand struct {
 }
 
 type leafRes struct {
-	cands     []cand
-	emptyMid  bool   // some mask left an empty value and a later mask still looks at this field
-	trigger   string // crash-class labels of all (mask, input) pairs met on the way
+	cands    []cand
+	emptyMid bool   // some mask left an empty value and a later mask still looks at this field
+	trigger  string // crash-class labels of all (mask, input) pairs met on the way
 }
 
 // leaf computes the acceptable results of one string/number value. stale=true is NOT the reference: it is the
@@ -920,7 +920,7 @@ type modeSpec struct {
 	cut      bool
 }
 
-var modes = []modeSpec{{}, {maxCount: 1}, {word: "X"}, {cut: true}, {word: "ab"}}
+var modes = []modeSpec{{}, {maxCount: 1}, {word: "X"}, {cut: true}, {word: "ab"}, {maxCount: 2}}
 
 func singleMasks(thorough bool) []maskSpec {
 	var out []maskSpec
